@@ -204,6 +204,71 @@ theorem free_callback_exactly_once (cfg : Cfg) (ops : List Op) (r : Nat) :
   unfold phi frc at h
   cases hx : (run (St.init cfg) ops).1.resps r <;> simp only [hx] at h ⊢ <;> simpa using h
 
+/-- Every way a connection takes and drops a response reference is a transition of the model and is
+    covered by `refcount_refines` / `free_callback_exactly_once` (they quantify over every history):
+    the final reply (`doReply`/`runReply`: +1 at MHD_queue_response, −1 at connection_reset or
+    MHD_connection_close_ or cleanup), the upgrade reply (−1 right after the 101 header), interim
+    "102 Processing" replies (`interimOne`: +1, −1 in the FULL_REPLY_SENT branch), a response queued
+    from outside the handler on a suspended connection (`Op.extQueue`: +1), a failed / refused queue
+    (no change), a daemon-generated error reply (`Beh.bad`: no application response is touched).
+    Local law of the interim replies: any number of them, on any table that refines a holder
+    count, leaves every response with the same holders (every reference taken is given back),
+    raises no fault, and emits no socket / notification event. -/
+theorem interim_replies_balanced (R : RespTab) (c : Conn) (pre : List Nat) (H : Nat → Nat)
+    (h : ∀ r, RT1 r R.tab (H r)) :
+    (∀ r, RT1 r (interims R c pre).1.tab (H r)) ∧ (interims R c pre).1.fault = R.fault ∧
+    (∀ x, fdc x (interims R c pre).2.2 = 0 ∧ stc x (interims R c pre).2.2 = 0 ∧ clc x (interims R c pre).2.2 = 0) :=
+  ⟨(interims_rt c pre R H h).1, (interims_rt c pre R H h).2, interims_quiet c pre R⟩
+
+/-- Stop releases every response: after any history and a `stop` that does not hit the API-misuse
+    panic, no connection holds a response any more — every response object ever created has
+    reference count 1 if the application still has its own reference and 0 otherwise; in the latter
+    case it is freed and its free callback has run exactly once over the whole trace (never, if it has
+    none).  With `refcount_refines` (freed ⇔ count 0; a freed response cannot be queued,
+    `free_callback_at_zero`) this is "exactly once and only after its last use". -/
+theorem stop_releases_every_response (cfg : Cfg) (ops : List Op) (r : Nat) :
+    let h := run (St.init cfg) ops
+    let q := step h.1 .stop
+    h.1.shutdown = false → h.1.fault = none → q.1.fault ≠ some .stopSuspended →
+    match q.1.resps r with
+    | none => True
+    | some x => x.rc = (if x.app then 1 else 0) ∧
+        (x.app = false → x.freed = true ∧ (h.2 ++ q.2).count (.freeCb r) = if x.hasCb then 1 else 0) := by
+  intro h q h1 h2 h3
+  have hq : q = stop h.1 := step_stop_eq h.1 h1 h2
+  have he := stop_empties h.1 (by rw [← hq]; exact h3)
+  rw [← hq] at he
+  obtain ⟨e1, e2, e3, e4⟩ := he
+  have hr : RInv q.1 := step_rinv h.1 .stop (run_rinv ops _ (init_rinv cfg))
+  have hrt := hr.rt r
+  have hf1 := run_sfb r ops (St.init cfg)
+  have hf2 := step_sfb r h.1 .stop
+  have hf := FB.trans hf1 hf2
+  unfold SFB FB at hf
+  have h0 : phi r (St.init cfg).resps = 0 := by simp [phi, St.init]
+  rw [h0] at hf
+  simp only [holders, e1, e2, e3, e4, hold_nil, Nat.add_zero] at hrt
+  unfold RT1 at hrt
+  unfold phi frc at hf
+  cases hx : q.1.resps r with
+  | none => trivial
+  | some x =>
+    simp only [hx] at hrt hf ⊢
+    obtain ⟨a1, a2⟩ := hrt
+    refine ⟨by simpa [appN] using a1, fun ha => ?_⟩
+    have hz : x.rc = 0 := by simp [appN, ha] at a1; exact a1
+    have hfr : x.freed = true := a2.mpr hz
+    refine ⟨hfr, ?_⟩
+    have hx' : (step h.1 .stop).1.resps r = some x := hx
+    rw [hx'] at hf
+    simpa [hfr] using hf
+
+/-- A failing accept()/accept4() on the listen socket (EMFILE, ENFILE, ECONNABORTED, EAGAIN, …:
+    MHD_accept_connection returns before internal_add_connection) changes nothing: no counter, no
+    per-address counter, no list — capacity cannot be lost there. -/
+theorem accept_failure_loses_nothing (s : St) : step s .acceptFail = (s, []) := by
+  unfold step; split <;> rfl
+
 /-- Thread pool (MHD_OPTION_THREAD_POOL_SIZE = n ≥ 1 workers): the workers' connection limits,
     as computed by MHD_start_daemon_va, sum to the configured limit — for every limit and every
     pool size. -/
@@ -260,7 +325,7 @@ def demoOps : List Op :=
    .arrive 2 true true,            -- accepted
    .arrive 3 true true,            -- accepted
    .arrive 4 true true,            -- refused: global limit
-   .req 0 (.suspend 1), .req 4 (.reply 3 false), .round]
+   .req 0 (.suspend 1 []), .req 4 (.reply 3 false []), .round]
 
 example : let s := (run (St.init demoCfg) demoOps).1
     s.connections = 3 ∧ s.active.length = 1 ∧ s.susp.length = 2 ∧ (s.susp.filter (·.urh)).length = 1 ∧
@@ -280,12 +345,40 @@ example : let r := run (St.init demoCfg) (demoOps ++ [.upClose 4, .resume 0])
     connection whose client does not read (counter 2), then by the connection alone (counter 1,
     not freed), then released by the connection's close: freed, free callback emitted once. -/
 example :
-    let ops : List Op := [.respCreate 2 true true false, .arrive 1 true true, .hold 0, .req 0 (.reply 2 false), .round]
+    let ops : List Op := [.respCreate 2 true true false, .arrive 1 true true, .hold 0, .req 0 (.reply 2 false []), .round]
     let s1 := (run (St.init demoCfg) ops).1
     let s2 := (run (St.init demoCfg) (ops ++ [.respDrop 2])).1
     let r3 := run (St.init demoCfg) (ops ++ [.respDrop 2, .clientClose 0, .round])
     (s1.resps 2).map (·.rc) = some 2 ∧ (s2.resps 2).map (fun x => (x.rc, x.freed)) = some (1, false) ∧
     (r3.1.resps 2).map (fun x => (x.rc, x.freed)) = some (0, true) ∧ r3.2.count (.freeCb 2) = 1 ∧ r3.1.fault = none := by
+  decide
+
+/-- Non-vacuity of the interim-reply transitions: two "102 Processing" replies (responses 5 and 6) and then
+    the final reply 1 to a client that does not read a big final response: all three are queued, 5 and 6
+    are back to the application's reference alone, 1 is held by the connection (count 2); after the
+    application drops all of them and the daemon stops, each callback has run exactly once. -/
+example :
+    let ops : List Op := [.respCreate 1 true true false, .respCreate 5 false true false, .respCreate 6 false true false,
+                          .arrive 1 true true, .hold 0, .req 0 (.reply 1 false [5, 6]), .round]
+    let r1 := run (St.init demoCfg) ops
+    let r2 := run (St.init demoCfg) (ops ++ [.respDrop 1, .respDrop 5, .respDrop 6, .stop])
+    r1.2.filter (fun e => match e with | .queued _ _ _ => true | _ => false) = [.queued 0 5 true, .queued 0 6 true, .queued 0 1 true] ∧
+    (r1.1.resps 5).map (·.rc) = some 1 ∧ (r1.1.resps 6).map (·.rc) = some 1 ∧ (r1.1.resps 1).map (·.rc) = some 2 ∧
+    (r1.1.active.map (·.closeAfter)) = [true] ∧
+    r2.2.count (.freeCb 1) = 1 ∧ r2.2.count (.freeCb 5) = 1 ∧ r2.2.count (.freeCb 6) = 1 ∧ r2.1.fault = none := by
+  decide
+
+/-- Non-vacuity of `Op.extQueue` and `Beh.bad`: connection 0 suspends, the application queues response 1 from
+    outside the handler (count 2), resumes; the reply runs and the connection closes; connection 1 sends a
+    malformed request and is closed by the daemon; an interim reply with an 'upgrade' response is refused. -/
+example :
+    let ops : List Op := [.respCreate 1 false true false, .respCreate 3 false false true, .arrive 1 true true, .arrive 2 true true,
+                          .arrive 3 true true, .req 0 (.suspend 1 []), .req 1 .bad, .req 2 (.reply 1 false [3]), .round, .extQueue 0 1]
+    let r1 := run (St.init demoCfg) ops
+    let r2 := run (St.init demoCfg) (ops ++ [.resume 0, .round])
+    (r1.1.resps 1).map (·.rc) = some 2 ∧ r1.1.susp.map (·.resp) = [some 1] ∧ r1.2.count (.queued 2 3 false) = 1 ∧
+    r1.2.count (.connClose 1) = 1 ∧ r1.2.count (.connClose 2) = 1 ∧
+    (r2.1.resps 1).map (·.rc) = some 1 ∧ r2.2.count (.connClose 0) = 1 ∧ r2.1.connections = 0 ∧ r2.1.fault = none := by
   decide
 
 end Mhd.C09
